@@ -281,11 +281,16 @@ struct D
 		if (x.ok() != (mv.t != M_NONE)) c.fail("ok", path);
 		switch (mv.t) {
 		case M_BOOL: if ((bool)x != mv.b) c.fail("value.bool", path); break;
-		case M_INT: if ((int)x != (int)mv.d || (double)x != mv.d || !x.is(Var::NUMBER)) c.fail("value.int", vf::fmt("%s: %d vs %d", path.c_str(), (int)x, (int)mv.d)); break;
+		case M_INT: if (mv.d >= 0 && (unsigned)x != (unsigned)mv.d) c.fail("value.int-as-unsigned", path);
+			if ((Long)x != (Long)mv.d) c.fail("value.int-as-Long", path);
+			if ((int)x != (int)mv.d || (double)x != mv.d || !x.is(Var::NUMBER)) c.fail("value.int", vf::fmt("%s: %d vs %d", path.c_str(), (int)x, (int)mv.d)); break;
 		case M_NUMBER: {
 			double dd = (double)x;
 			if (memcmp(&dd, &mv.d, 8) != 0) c.fail("value.double", vf::fmt("%s: %.17g vs %.17g", path.c_str(), dd, mv.d));
 			if (fabs(mv.d) < 2e9 && (int)x != (int)mv.d) c.fail("value.double-as-int", path);
+			// the other integer accessors, for whole numbers inside their ranges
+			if (mv.d >= 0 && mv.d <= 4294967295.0 && mv.d == floor(mv.d) && (unsigned)x != (unsigned)mv.d) c.fail("value.double-as-unsigned", vf::fmt("%s: (unsigned) gives %u, value %.0f", path.c_str(), (unsigned)x, mv.d));
+			if (fabs(mv.d) < 9e15 && mv.d == floor(mv.d) && (Long)x != (Long)mv.d) c.fail("value.double-as-Long", vf::fmt("%s: (Long) gives %lld, value %.0f", path.c_str(), (long long)(Long)x, mv.d));
 			break;
 		}
 		case M_FLOAT: if ((float)x != (float)mv.d || (double)x != mv.d) c.fail("value.float", path); break;
